@@ -1,19 +1,22 @@
 #!/bin/bash
-# usage: selftest/targets.sh [seed]  — every seeded change (seeded/w*/) and every own mutant against the quick check
+# usage: selftest/targets.sh [seed] ["props"]  — every seeded change (seeded/w*/) and every own mutant against the quick check
 # of the property it targets; prints one line per change and a summary. Re-run after generator changes: a change
 # that was caught by seed luck shows up here as MISSED.
 ROOT="$(cd "$(dirname "${BASH_SOURCE[0]}")/.." && pwd)"
 export VERIF_SEED="${1:-1}"
+ONLY="${2:-}"
 miss=0; n=0
 for d in "$ROOT"/seeded/w*/; do
   id="$(basename "$d")"
   prop="$(python3 -c "import json,sys;print(json.load(open(sys.argv[1]))['breaks_property'])" "$d/meta.json")"
+  [ -z "$ONLY" ] || case " $ONLY " in *" $prop "*) ;; *) continue;; esac
   out="$("$ROOT/selftest/matrix.sh" "$d/patch.diff" "$prop" 2>&1 | grep "^$prop rc")"
   n=$((n+1))
   case "$out" in *"rc=1"*) v=caught;; *) v=MISSED; miss=$((miss+1));; esac
   echo "$id $prop $v ${out:0:160}"
 done
 for pf in "$ROOT"/selftest/mutants/own-*.patch; do
+  [ -z "$ONLY" ] || case " $ONLY " in *" C13 "*) ;; *) continue;; esac
   out="$("$ROOT/selftest/matrix.sh" "$pf" C13 2>&1 | grep "^C13 rc")"
   n=$((n+1))
   case "$out" in *"rc=1"*) v=caught;; *) v=MISSED; miss=$((miss+1));; esac
